@@ -5,5 +5,5 @@ cd "$(dirname "$0")/.."
 id=$1
 tools/confirm_seed.sh $id | tail -2
 [ -d seeded/$id ] || exit 1
-git -C /repo worktree remove --force /tmp/seed4/$id 2>/dev/null
+for d in /tmp/seed4/$id /tmp/seed5/$id; do git -C /repo worktree remove --force $d 2>/dev/null; done
 tools/seeded_matrix_par.sh /tmp/seeded_intake_$id.txt 1 $id
